@@ -177,6 +177,19 @@ OBS_ALL = lambda n: ([("len",), ("isempty",), ("newest",), ("oldest",), ("slice"
                      + [("iterrev", k) for k in range(0, n + 2)])
 
 
+def big_capacity_sweep(safe_only):
+    """large capacities (beyond half of the PeriodType range) at several ring phases: EVERY position read by index and by get"""
+    cases = []
+    for n in (127, 128, 129, 130, 200, 253, 254):
+        for p in (0, 1, n // 2, n - 1, n, n + 1):
+            ops = [("push", 100000 + j) for j in range(p)]
+            ops += [("index", i) for i in range(n)] + [("get", i) for i in range(n)] + [("get", n), ("get", 255), ("newest",), ("oldest",)]
+            if not safe_only:
+                ops += [("index", n), ("index", 255)]
+            cases.append(WinCase(("new", n, 7), ops, "big-capacity-sweep"))
+    return cases
+
+
 def gen(rng, tier):
     cases = []
     maxcap = 4 if tier == "quick" else 6
@@ -241,6 +254,7 @@ def gen(rng, tier):
             else:
                 ops.append(("clone",))
         cases.append(WinCase(("new", n, 999), ops, "random-program"))
+    cases += big_capacity_sweep(False)
     return cases
 
 
@@ -279,4 +293,5 @@ def gen_safe(rng, tier):
             else:
                 ops.append((r.choice(["iterall", "iterrevall", "slice", "serde"]),))
         cases.append(WinCase(("new", n, 999), ops, "safe-random"))
+    cases += big_capacity_sweep(True)
     return cases
